@@ -136,6 +136,12 @@ def call(target, *args, **kwargs):
     return call_target(target, *args, **kwargs)
 
 
+def mk(ty, **fields):
+    """Build a record value of a declared Rec type (natively: the real class / dict; symbolically: a record)."""
+    from .native import build_value
+    return build_value(ty, dict(fields))
+
+
 def old_of(x):  # documentation helper
     return x
 
